@@ -42,6 +42,9 @@ func runC09(p *core.Prog, r *core.Report) {
 	c09R6(p, r)
 	c09R7(p, r)
 	c09R8(p, r)
+	// an import into a layout is followed by Close: the collector keeps every entry the index lists,
+	// blob-typed entries included (shared with C08.R8)
+	c08R8(p, r, "C09.R9")
 }
 
 func c09R2R3(p *core.Prog, r *core.Report) {
